@@ -77,6 +77,13 @@ def run(rep):
                     for o in READBACK_AS_PASSED:
                         add(f'C17.new.post.readback.{o}.{tag}', pc, z3.Select(ex.field(s, '_' + o), selfobj) == A[o], f'self._{o} is the passed {o}')
                     add(f'C17.new.post.readback.is_color.{tag}', pc, z3.Select(ex.field(s, '_is_color'), selfobj) == COLOR)
+                    # the three warn-vs-raise flags are computed from THEIR OWN violation class (used by the code generator, C03)
+                    for which in ('door', 'param', 'return'):
+                        last_t = None
+                        kwf = dict(s.hget(('dict', s.hget(('fieldlast', '_conf_kwargs'))[1].rid), ())) if s.hget(('fieldlast', '_conf_kwargs')) is not None else {}
+                        if f'violation_{which}_type' in kwf:
+                            add(f'C17.new.post.warnflag.{which}.{tag}', pc, z3.Select(ex.field(s, f'_is_violation_{which}_warn'), selfobj) == M.box_bool(M.subc(ex.obj(kwf[f'violation_{which}_type']), uni.const(Warning))),
+                                f'_is_violation_{which}_warn == issubclass(violation_{which}_type, Warning)')
                     # post.roundtrip: BeartypeConf(**conf.kwargs) is conf  <=>  the options stored in `kwargs` form a key equal (==/hash) to this one
                     last = s.hget(('fieldlast', '_conf_kwargs'))
                     if last is not None and isinstance(last[1], symx.VDictRef):
